@@ -251,7 +251,7 @@ def chx_part(run, tmp, tier, out):
     twin_file = chx.make_twin(HARNESS, tmp)
     twins = chx.conditions(twin_file)
     groups = []
-    t_main = 120 if tier == "quick" else 900
+    t_main = 120 if tier == "quick" else 420
     for n in names:
         c, t = conds[n], twins[n]
         c.timeout, t.timeout, t.twin = t_main, t_main, True
